@@ -118,6 +118,11 @@ class Evaluator:
                'reason': o.reason, 'alts': [a for a in al if a != 'reject' and a != o.tokens][:4], 'flags': sorted(o.flags),
                'defined': list(o.defined), 'obs_status': obs[0], 'obs': obs[1], 'obs_text': obs[2]}
         key = family(rec)
+        if key is None or key == 'E-text/adjacent-tokens-pasted':
+            # the -E TEXT of two adjacent tokens may re-lex differently ("-" "-1" printed as "--1"); the token
+            # stream itself is right and C11 does not define a textual form, so this is counted, not reported
+            self.unsettled = getattr(self, 'unsettled', 0) + 1
+            return
         rec['family'] = key
         lst = self.mism.setdefault(key, [])
         if len(lst) < KEEP_PER_KEY:
@@ -371,7 +376,11 @@ def family(rec):
     if st not in (0, 1):
         return 'crash/' + (asan_probe(rec) or crash_site(st, rec['obs_text']))
     if 'funclike-name-then-directive' in rec['flags']:
-        return 'directive-not-recognised-after-funclike-name-at-end-of-line'
+        # a directive printed as text is the defect; whether a directive between the name and '(' prevents the
+        # invocation is not settled by C11 (gcc and clang say it does, cproc treats the directive as transparent)
+        if rec['obs'] and any(sp == '#' for _, sp in rec['obs']):
+            return 'directive-not-recognised-after-funclike-name-at-end-of-line'
+        return None
     if mode == 'tokens' and st == 0:
         o2 = cppref.run(rec['src'], stale_paint=True)
         if o2.status == 'ok' and o2.tokens == rec['obs']:
